@@ -1,10 +1,14 @@
 import GM.CP
+import GM.Alias
 /-! Line-protocol driver for the graph layer (slices G-cp, G-sel).  Protocol: DESIGN.md appendix A.3.
 
     Q <id> <n>
     N <prio> <debug 0|1> <pred>*                 (n lines; node i = line i; recording order)
     cp                                           -> <id> CP <v0> … <v(n-1)>
+    I <node> <id> <tag>*                         (optional, any number: the node's id string and its tags)
     sel <R|-> ; <X|-> ; <T|-> ; <dbg 0|1>        -> <id> SEL <nodes…> | <id> VALUEERROR <why> | <id> OUTOFSCOPE
+    asel <R|-> ; <X|-> ; <T|-> ; <dbg 0|1>       the same with ALIASES (r<node> | f | s:<string>), resolved by
+                                                 GM.resolveAll (tag first, then id); unknown alias -> VALUEERROR alias
     E
 -/
 open GM
@@ -28,6 +32,20 @@ def splitOnTok (l : List String) (sep : String) : List (List String) :=
     | x :: xs => if x == sep then go xs [] (acc ++ [cur]) else go xs (cur ++ [x]) acc
   go l [] []
 
+def parseAlias (w : String) : Option Alias :=
+  if w == "f" then some .foreign
+  else if w.startsWith "r" then (w.drop 1).toNat?.map Alias.ref
+  else if w.startsWith "s:" then some (.name (w.drop 2).toString)
+  else none
+
+/-- `none` = no restriction; `some none` = unparsable -/
+def parseAliases (w : List String) : Option (Option (List Alias)) :=
+  match w with
+  | ["-"] => some none
+  | l => (l.mapM parseAlias).map some
+
+def dedup (l : List Node) : List Node := l.foldl (fun acc x => if acc.contains x then acc else acc ++ [x]) []
+
 def showNodes (l : List Node) : String := " ".intercalate ((l.mergeSort (· ≤ ·)).map toString)
 
 def main : IO Unit := do
@@ -49,8 +67,33 @@ def main : IO Unit := do
       let prioF : Node → Int := fun m => prio.getD m 0
       let dbgF : Node → Bool := fun m => dbg.getD m false
       i := i + 1 + n
+      let mut idA : Array String := Array.replicate n ""
+      let mut tagA : Array (List String) := Array.replicate n []
       while i < lines.size && lines[i]! != "E" do
         match toks lines[i]! with
+        | "I" :: m :: name :: tags =>
+          idA := idA.set! m.toNat! name; tagA := tagA.set! m.toNat! tags
+        | "asel" :: rest =>
+          let nm : Naming := { n := n, idOf := fun m => idA.getD m "", tagsOf := fun m => tagA.getD m [] }
+          match splitOnTok rest ";" with
+          | [r, x, t, [d]] =>
+            match parseAliases r, parseAliases x, parseAliases t with
+            | some Ra, some Xa, some Ta =>
+              let res (o : Option (List Alias)) : Option (Option (List Node)) :=
+                match o with | none => some none | some l => (resolveAll nm l).map (fun z => some (dedup z))
+              match res Ra, res Xa, res Ta with
+              | some R, some X, some T =>
+                match selectChecked g R X T with
+                | .error .notRoot => IO.println s!"{qid} VALUEERROR notroot"
+                | .error .targetMissing => IO.println s!"{qid} VALUEERROR target"
+                | .error .excludeMissing => IO.println s!"{qid} OUTOFSCOPE"
+                | .ok sel =>
+                  let gi := induced g (sel.contains ·)
+                  let out := extendDebug g dbgF sel (leaves gi) (d == "1")
+                  IO.println s!"{qid} SEL {showNodes out}"
+              | _, _, _ => IO.println s!"{qid} VALUEERROR alias"
+            | _, _, _ => IO.println s!"{qid} PARSE"
+          | _ => IO.println s!"{qid} PARSE"
         | ["cp"] =>
           IO.println s!"{qid} CP {" ".intercalate ((List.range n).map fun m => toString (cpAll g prioF m))}"
         | "sel" :: rest =>
